@@ -1384,8 +1384,20 @@ def r50_only_update_reseats_handles(facts):
                 continue
             n_sites += 1
             inst = "reseat:%s" % b["def"]
+            # the caller's OWN handle, handed over by `&mut self` to a public operation named by the caller (`c += &x`): the exclusive borrow
+            # means no other handle is involved - it is the assignment `c = &c + &x` the caller could have written
+            own = False
+            if b["kind"] in ("Fn", "AssocFn") and n.get("k") == "Assign":
+                ps_ = [p_ for p_ in facts.params(b) if p_.get("pat")]
+                tgt_ = strip(strip(n["l"])["e"])
+                if ps_ and ps_[0].get("self") and ps_[0]["pat"].get("k") == "Binding" and (ps_[0].get("ty") or "") == MUT \
+                        and isinstance(tgt_, dict) and tgt_.get("k") in ("VarRef",) and tgt_["v"] == ps_[0]["pat"]["v"] \
+                        and (b.get("impl_self") == ARRAY or (b.get("impl_trait_def") or "").startswith("core::ops::arith::")):
+                    own = True
             if b["def"] in allowed:
                 c.ok(inst, loc(b, n), "a parameter handle is re-seated inside Optimizer::update")
+            elif own:
+                c.ok(inst, loc(b, n), "an operation on `&mut self` rebinds the caller's own handle (exclusive borrow: no other handle shows the change)", nontrivial=False)
             else:
                 c.bad(inst, loc(b, n), "%s makes an existing handle show another array outside Optimizer::update: the dimensions / values seen through that handle change "
                       "without an update (a clone taken before still shows the old array, so the handle and its clones disagree)" % site)
@@ -1452,6 +1464,12 @@ def r52_model_update_delegates(facts):
                 mentions_layers = True
             if x.get("k") == "Call" and (callee(x) or "").rsplit("::", 1)[-1] in ("skip", "take", "filter", "step_by", "skip_while", "take_while", "filter_map", "nth", "last", "first"):
                 selective = selective or x
+        # a parameter is collected under a condition (de-duplication by value, a test on the array): some parameters are left out
+        for nb_ in facts.nested(pb):
+            for x, ctx_ in F.walk_ctx(facts.root(nb_)):
+                if x.get("k") == "Call" and callee(x) in ("alloc::vec::Vec::<T, A>::push", "core::iter::traits::collect::Extend::extend") and any(
+                        fr[0] in ("if", "guard", "after") or (fr[0] == "arm" and not str(fr[1].get("source", "")).startswith("ForLoopDesugar")) for fr in ctx_):
+                    selective = selective or x
         calls_layer_params = any(x.get("k") == "Call" and (callee(x) == "corgi::layer::Layer::parameters" or (resolved(x) or "").endswith("::parameters")) for nb in facts.nested(pb) for x in walk(facts.root(nb)))
         if not mentions_layers or not calls_layer_params:
             c.unk(inst, loc(pb, facts.root(pb)), "the parameter collector does not visibly walk self.layers calling Layer::parameters")
